@@ -1040,6 +1040,19 @@ def ndim(a):
     return _np.ndim(a)
 
 
+def fromiter(it, dtype=None, count=-1, **k):
+    """numpy.fromiter: a 1-D array of the iterable's items, each converted like astype(dtype)"""
+    items = list(it)
+    if count is not None and count >= 0:
+        if len(items) < count:
+            raise ValueError("iterator too short")
+        items = items[:count]
+    flat = _np.empty(len(items), dtype=object)
+    for i, v in enumerate(items):
+        flat[i] = v
+    return astype(flat, float if dtype is None else dtype)
+
+
 def astype(a, t):
     A = _plain(a)
     tn = getattr(t, "__name__", t)
